@@ -16,6 +16,7 @@ import (
 	"strings"
 	"time"
 
+	"verif/harness/internal/fp"
 	"verif/harness/internal/fw"
 	"verif/harness/internal/helpers"
 	"verif/harness/internal/racelog"
@@ -59,6 +60,15 @@ func child(a []string) {
 		os.Exit(3)
 	}
 	r := fw.NewRun(tier, seed, workdir, env("VERIF_REPO", "/repo"))
+	stopFP := func() fp.Stats { return fp.Stats{} }
+	if os.Getenv("VERIF_FP") == "1" {
+		if !fp.Available() {
+			fmt.Fprintln(os.Stderr, "child: failpoint pass asked for, but this build has no failpoints")
+			os.Exit(3)
+		}
+		r.FP = true
+		stopFP = fp.Start(seed)
+	}
 	if len(a) >= 5 {
 		b, err := os.ReadFile(a[4])
 		if err != nil {
@@ -79,6 +89,17 @@ func child(a []string) {
 		e.Replay(r, rp.Case)
 	} else {
 		e.Run(r)
+	}
+	if r.FP {
+		st := stopFP()
+		r.Count("sites", int64(st.Sites))
+		r.Count("sites_activated", int64(st.SitesEnabled))
+		r.Count("sites_hit_while_active", int64(st.SitesHit))
+		r.Count("delays_injected", st.Hits)
+		r.Count("epochs", st.Epochs)
+		for _, s := range st.HitSites {
+			r.Distinct("site_hit", s)
+		}
 	}
 	res := r.Result(id, true)
 	b, _ := json.Marshal(res)
@@ -249,6 +270,78 @@ func parent(a []string) int {
 		reps := racelog.Parse(workdir, "race")
 		racelog.Fold(&res, reps)
 	}
+
+	// ---- failpoint pass --------------------------------------------------------------
+	// The same engine once more, in the failpoint build, while the scheduler of internal/fp holds windows inside the
+	// library open. Its violations are violations like any other (a delay is something a loaded machine does too); its
+	// counters are reported under "fp_".
+	if fpBin := os.Getenv("VCHECK_FP_BIN"); e.FP && fpBin != "" && replay == "" && os.Getenv("VERIF_NO_FP") == "" {
+		fpDir := filepath.Join(workdir, "fp")
+		os.MkdirAll(fpDir, 0755)
+		fargs := []string{"-s", "QUIT", "-k", "20", strconv.Itoa(int(to.Seconds())), fpBin, "--child", id, tier, strconv.FormatInt(seed, 10), fpDir}
+		fcmd := exec.Command("timeout", fargs...)
+		flog, _ := os.Create(filepath.Join(fpDir, "child.log"))
+		fcmd.Stdout, fcmd.Stderr = flog, flog
+		fcmd.Env = append(os.Environ(), "VERIF_WORKDIR="+fpDir, "VERIF_FP=1")
+		fstart := time.Now()
+		ferr := fcmd.Run()
+		flog.Close()
+		var fres fw.Result
+		fb, frerr := os.ReadFile(filepath.Join(fpDir, "result.json"))
+		if frerr != nil || json.Unmarshal(fb, &fres) != nil {
+			ftail := tail(filepath.Join(fpDir, "child.log"), 12000)
+			if e.CrashIsViolation && panicInLibrary(ftail) {
+				cb, _ := json.Marshal(map[string]string{"what": "failpoint pass: the child died with a panic / fatal error whose trace runs through the library"})
+				res.Violations = append(res.Violations, fw.Violation{Signature: "process-death " + crashKind(ftail), Detail: "[failpoint pass]\n" + ftail, Case: cb})
+				res.ViolationsN++
+			} else {
+				fmt.Printf("HARNESS-ERROR property=%s failpoint pass: child died (%v)\n%s\n", id, ferr, ftail)
+				return 3
+			}
+		} else {
+			if res.Counters == nil {
+				res.Counters = map[string]int64{}
+			}
+			if res.DistinctN == nil {
+				res.DistinctN = map[string]int64{}
+			}
+			for _, v := range fres.Violations {
+				v.Detail = "[failpoint pass: seeded delays inside the library, see DESIGN 4.0] " + v.Detail
+				res.Violations = append(res.Violations, v)
+			}
+			res.ViolationsN += fres.ViolationsN
+			for _, s := range fres.Inconclusive {
+				res.Inconclusive = append(res.Inconclusive, "[failpoint pass] "+s)
+			}
+			res.InconclusiveN += fres.InconclusiveN
+			res.Counters["fp_evaluations"] = fres.Evaluations
+			res.Counters["fp_distinct_nontrivial"] = fres.Nontrivial
+			res.Counters["fp_wall_ms"] = int64(time.Since(fstart).Milliseconds())
+			for k, v := range fres.Counters {
+				res.Counters["fp_"+k] = v
+			}
+			for k, v := range fres.DistinctN {
+				res.DistinctN["fp_"+k] = v
+			}
+			if ex := fres.DistinctEx["site_hit"]; len(ex) > 0 {
+				if res.DistinctEx == nil {
+					res.DistinctEx = map[string][]string{}
+				}
+				res.DistinctEx["fp_site_hit"] = ex
+			}
+			for _, n := range fres.Notes {
+				res.Notes = append(res.Notes, "[failpoint pass] "+n)
+			}
+			if fres.Counters["delays_injected"] == 0 {
+				fmt.Printf("HARNESS-ERROR property=%s failpoint pass injected no delay at all (sites=%d)\n", id, fres.Counters["sites"])
+				return 3
+			}
+		}
+	} else if e.FP && replay == "" && os.Getenv("VERIF_NO_FP") == "" {
+		res.Notes = append(res.Notes, "no failpoint build was available (VCHECK_FP_BIN unset): the failpoint pass did not run")
+		fmt.Printf("NOTE property=%s the failpoint pass did not run (no failpoint build)\n", id)
+	}
+	wall = time.Since(start).Seconds()
 
 	// ---- decide --------------------------------------------------------------------
 	findings := loadFindings(root)
